@@ -7,6 +7,7 @@ LOG=/root/logs/confirm_${ID}_$V.log
 rm -rf $W; git -C /repo worktree add --detach $W HEAD -q || exit 3
 mkdir -p $W/seed; cp /tmp/seed/$ID/seed/demo_$V.py $W/seed/
 cd $W
+[ -n "$SEED_THREADS" ] && export NUMBA_NUM_THREADS=$SEED_THREADS
 {
 echo "== demo on pristine"; timeout 1800 /venv/bin/python seed/demo_$V.py > seed/_p.out 2>&1; echo "exit=$?"; tail -3 seed/_p.out
 git apply "$PATCH" || { echo "PATCH DOES NOT APPLY"; }
